@@ -199,6 +199,4 @@ def run(ctx):
 
 
 def replay(ctx, path):
-    import json
-    obj = json.load(open(path))
-    C01.monitor_nets(ctx, [(obj["replay"]["spec"], "replay")], "c03", 1)
+    C01.replay(ctx, path)
